@@ -122,6 +122,7 @@ def make_inst(spec, build_child):
 
 class Env:
     def __init__(self, spec):
+        self.argconst = spec.get("argconst", [])
         self.by_id = {}
         self.kinds = {}
         self.patches = []       # (parent, seg, trap)
@@ -224,14 +225,40 @@ class Env:
 
 
 # --------------------------------------------------------------------------- payload materialisation
-def arg_value(n):
-    return "echo %d" % n
+ARG_TAB, ARG_CONST = 1000, 5000
 
 
-def arg_back(v):
-    if isinstance(v, str) and v.startswith("echo ") and v[5:].isdigit():
-        return int(v[5:])
-    raise ValueError("foreign argument %r" % (v,))
+class Args:
+    """argument numbers <-> Python values: n < 1000 is the string "echo n"; 1000 + i is entry i of the case's own table
+    (JSON values that mention trap objects: module names, attribute names, nested lists, ExceptionRepr-shaped dicts);
+    5000 + i is entry i of the environment's constant table (values a real constructor adds to .args by itself)"""
+
+    def __init__(self, argtab=(), argconst=()):
+        self.tab, self.const = list(argtab), list(argconst)
+        self.codes = {}
+        for base, vals in ((ARG_CONST, self.const), (ARG_TAB, self.tab)):
+            for i, v in enumerate(vals):
+                self.codes.setdefault(json.dumps(v, sort_keys=True), base + i)
+
+    def value(self, n):
+        if n < ARG_TAB:
+            return "echo %d" % n
+        v = self.const[n - ARG_CONST] if n >= ARG_CONST else self.tab[n - ARG_TAB]
+        return json.loads(json.dumps(v))          # a fresh copy: the load may keep (or mutate) what it is given
+
+    def known(self, v):
+        try:
+            return json.dumps(v, sort_keys=True) in self.codes
+        except (TypeError, ValueError):
+            return False
+
+    def back(self, v):
+        if isinstance(v, str) and v.startswith("echo ") and v[5:].isdigit():
+            return int(v[5:])
+        try:
+            return self.codes[json.dumps(v, sort_keys=True)]
+        except (TypeError, ValueError, KeyError):
+            raise ValueError("foreign argument %r" % (v,)) from None
 
 
 MISSING = "__missing__"
@@ -245,11 +272,12 @@ def field(f, ok):
 
 
 class Mat:
-    def __init__(self, env, entry):
-        self.env, self.entry = env, entry
+    def __init__(self, env, entry, args):
+        self.env, self.entry, self.args = env, entry, args
         self.instances = {}      # id(obj) -> plain-instance id
 
     def raw(self, r):
+        arg_value = self.args.value
         k = r["k"]
         if k == "none":
             return None
@@ -301,6 +329,7 @@ class Canon:
         self.mat, self.synth = mat, {id(c) for c in synth}
 
     def exn(self, x, depth=0):
+        arg_back = self.mat.args.back
         if x is None:
             return None
         if depth > 12 or not isinstance(x, BaseException):
@@ -312,7 +341,8 @@ class Canon:
             if cls.__bases__ != (Exception,):
                 return ["foreign", "synthetic class with bases %r" % (cls.__bases__,)]
             ref, args = ["synth", cls.__name__, smod(cls.__module__)], [arg_back(a) for a in x.args]
-        elif cls is Exception and len(x.args) == 1 and isinstance(x.args[0], str) and not x.args[0].startswith("echo "):
+        elif cls is Exception and len(x.args) == 1 and isinstance(x.args[0], str) \
+                and not x.args[0].startswith("echo ") and not self.mat.args.known(x.args[0]):
             ref, args = ["fallback"], []               # Exception(f"{cls}({exc_msg})")
         elif id(cls) in self.cls_ids:
             ref, args = ["env", self.cls_ids[id(cls)]], [arg_back(a) for a in x.args]
@@ -337,9 +367,9 @@ def call_entry(entry, value):
     raise ValueError(entry)
 
 
-def window(env, entry, raw):
+def window(env, entry, raw, argtab=()):
     """one load of `raw` inside an observation window; returns (res, eff, newmods)"""
-    mat = Mat(env, entry)
+    mat = Mat(env, entry, Args(argtab, env.argconst))
     env.install()
     gc.disable()
     try:
@@ -493,16 +523,126 @@ def special(case):
     raise ValueError(what)
 
 
+# --------------------------------------------------------------------------- what taskiq itself ships
+FULL_VIEW = ["taskiq.serialization", "taskiq.exceptions", "taskiq.result.v2", "taskiq.compat"]
+PROBE_SHAPES = [lambda i: "echo %d" % i, lambda i: [["m%d" % i, "n", ["a"], ""], {"k": None}, "s", 3, None][i % 5]]
+MAX_PROBE = 6
+
+
+def classify(o):
+    if isinstance(o, type):
+        return "exc" if issubclass(o, BaseException) else "class"
+    if isinstance(o, types.ModuleType):
+        return "module"
+    if isinstance(o, types.FunctionType):
+        return "func"
+    if isinstance(o, types.BuiltinFunctionType):
+        return "builtin"
+    return "inst"
+
+
+def probe_ctor(cls):
+    """what the plain Python call cls(*args) does, per argument count - the reference for 'load instantiates the named
+    exception class with the stored arguments and does nothing else'.  rows[n] = ["ok", extra] (an instance of exactly
+    cls whose .args are the given ones followed by the JSON values `extra`) | ["raises"] (an Exception) | ["skip", why]"""
+    rows = []
+    for n in range(MAX_PROBE + 1):
+        seen = []
+        for shape in PROBE_SHAPES:
+            args = [shape(i) for i in range(n)]
+            try:
+                x = cls(*json.loads(json.dumps(args)))
+            except Exception:
+                seen.append(["raises"])
+                continue
+            except BaseException as e:  # noqa: B036
+                seen.append(["skip", "raises %s" % type(e).__name__])
+                continue
+            try:
+                got = json.loads(json.dumps(list(x.args)))
+            except (TypeError, ValueError, AttributeError):
+                seen.append(["skip", "args not JSON"])
+                continue
+            if type(x) is not cls or got[:n] != args or not isinstance(x.__suppress_context__, bool):
+                seen.append(["skip", "returned %s with other args" % type(x).__name__])
+            else:
+                seen.append(["ok", got[n:]])
+        rows.append(seen[0] if all(s_ == seen[0] for s_ in seen) else ["skip", "depends on the argument types"])
+    return rows
+
+
+def discover(case):
+    """the exception classes (and, for the modules the load path lives in, every other attribute) that are reachable
+    through sys.modules keys taskiq / taskiq.* in this process, with object identities and constructor behaviour.
+    case["known"] = [[module, [attribute path], id] ...]: objects the harness has already given an identity"""
+    import taskiq  # noqa: F401 - the whole package, as a worker has it
+    ids, out = {}, []
+    for mn, path, i in case.get("known", []):
+        o = sys.modules.get(mn) or importlib.import_module(mn)
+        for seg in path:
+            o = getattr(o, seg)
+        ids.setdefault(id(o), i)
+    fresh = [case.get("base", 3000)]
+
+    def oid(o):
+        if id(o) not in ids:
+            ids[id(o)] = fresh[0]
+            fresh[0] += 1
+        return ids[id(o)]
+
+    def entry(name, o, children=()):
+        k = classify(o)
+        d = dict(seg=name, obj=oid(o), kind=k, children=list(children))
+        if k == "exc":
+            d["rows"] = probe_ctor(o)
+            d["label"] = "%s:%s" % (o.__module__, o.__qualname__)
+        elif k == "inst":
+            d["callable"] = callable(o)
+        return d
+
+    def stable(parent, name, o):
+        try:
+            return getattr(parent, name) is o and getattr(parent, name) is o
+        except Exception:
+            return False
+
+    def attrs(m):
+        return [(a, o) for a, o in sorted(vars(m).items()) if isinstance(a, str) and stable(m, a, o)]
+    for mn in sorted(sys.modules):
+        m = sys.modules[mn]
+        if not (mn == "taskiq" or mn.startswith("taskiq.")) or not isinstance(m, types.ModuleType):
+            continue
+        full = mn in FULL_VIEW
+        kids = []
+        for a, o in attrs(m):
+            k = classify(o)
+            if k == "exc":
+                kids.append(entry(a, o))
+            elif k == "module" and (full or mn == "taskiq"):
+                sub = [entry(b, c) for b, c in attrs(o) if classify(c) == "exc"]
+                sub = [e for e in sub if all(x[0] != "skip" for x in e["rows"])][:12]   # the harness would drop the others
+                if full or sub:
+                    kids.append(entry(a, o, sub))
+            elif full and not (a.startswith("__") and a.endswith("__")):
+                if k != "inst" or sum(c["kind"] == "inst" for c in kids) < 4:   # a few typing aliases / constants are enough
+                    kids.append(entry(a, o))
+        if kids:
+            out.append(dict(name=mn, obj=oid(m), children=kids))
+    return {"special": "discover", "modules": out}
+
+
 def run_case(case, opts):
+    if case.get("special") == "discover":
+        return discover(case)
     if "special" in case:
         return special(case)
     env = get_env(case["env"])
     if env.problems:
         return {"_crash": "environment self-check failed: %r" % env.problems[:5]}
-    res, eff, newmods = window(env, case["entry"], case["raw"])
+    res, eff, newmods = window(env, case["entry"], case["raw"], case.get("argtab", ()))
     nested = []
     if case.get("nested", True):
         for path, sub in list(subtrees(case["raw"]))[:14]:
-            r2, _e2, m2 = window(env, case["entry"], sub)
+            r2, _e2, m2 = window(env, case["entry"], sub, case.get("argtab", ()))
             nested.append([list(path), r2, m2])
     return {"res": res, "eff": eff, "newmods": newmods, "nested": nested}
